@@ -31,6 +31,11 @@ type replayCase struct {
 	Operands [][2]string `json:"operands"` // lo, hi (hex)
 	Got      string      `json:"got"`
 	Want     string      `json:"want"`
+	// register-position family
+	N     int   `json:"n,omitempty"`
+	Mixed bool  `json:"mixed,omitempty"`
+	Pos   []int `json:"pos,omitempty"`
+	Seed  int   `json:"seed,omitempty"` // tuple index (selects the filler values of the other parameters)
 }
 
 func toReplay(m mismatch, t Tuple, n int) replayCase {
@@ -69,6 +74,9 @@ func doReplay(path string, ops []*rs.Op) {
 	}
 	if op == nil {
 		fw.Fatalf("replay: unknown op %q", rc.Op)
+	}
+	if rc.Form == "regpos" {
+		replayRegpos(rc, op)
 	}
 	if rc.Form == "chain" || rc.Form == "raw" {
 		replayChain(rc, op, ops)
@@ -381,6 +389,52 @@ func main() {
 			run.Note("compiler: %d raw api.Function.Call results of type i32/f32 carry non-zero bits in the upper half of the uint64 (informational)", n)
 		}
 	}
+	// ---- register positions
+	rpStats := map[string]int64{}
+	if only == "" || os.Getenv("C05_REGPOS") != "" {
+		rops := buildRpOps(ops)
+		if only != "" {
+			var f []*rpOp
+			for _, p := range rops {
+				if strings.Contains(p.op.Name, only) {
+					f = append(f, p)
+				}
+			}
+			rops = f
+		}
+		tasks := rpTasks(rops)
+		rpStats["instructions"] = int64(len(rops))
+		rpStats["modules"] = int64(len(tasks))
+		fw.Parallel(len(tasks), nw, func(i int) {
+			if run.Expired() {
+				run.Capped("budget (register positions)")
+				return
+			}
+			w := <-pool
+			defer func() { pool <- w }()
+			execs, nf := w.runRegpos(tasks[i], st, func(rm rpMismatch) {
+				v := "same"
+				if rm.f.sh.mixed {
+					v = "mixed"
+				}
+				sig := fmt.Sprintf("regpos:%s:%s:n=%d:%s:pos=%v:%s", rm.f.p.op.Name, engineNames[rm.engine], rm.f.sh.n, v, rm.f.sh.pos, rm.which)
+				rc := replayCase{Op: rm.f.p.op.Name, Engine: engineNames[rm.engine], Form: "regpos", Got: rm.got, Want: rm.want, N: rm.f.sh.n, Mixed: rm.f.sh.mixed, Pos: rm.f.sh.pos, Seed: rm.it}
+				t := rm.f.p.tuples[rm.it]
+				for k := range rm.f.p.op.In {
+					rc.Operands = append(rc.Operands, [2]string{fmt.Sprintf("%#x", t[k].Lo), fmt.Sprintf("%#x", t[k].Hi)})
+				}
+				run.Violation(sig, rm.text(), rc)
+				outcomes.Inc("mismatch")
+			})
+			mu.Lock()
+			rpStats["functions"] += nf
+			rpStats["executions"] += execs
+			distinct += execs / 2
+			nontriv += execs / 2
+			formsSeen["regpos"] += execs
+			mu.Unlock()
+		})
+	}
 	// ---- thorough-tier streamed enumerations
 	bigStats := map[string]map[string]int64{}
 	if run.Thorough() && only == "" || os.Getenv("C05_BIG") != "" {
@@ -491,6 +545,8 @@ func main() {
 	}
 	bounds["pairs_in_one_function"] = pairStats
 	bounds["consumer_chains"] = chainStats
+	bounds["register_positions"] = rpStats
+	bounds["register_position_arities"] = rpArities
 	sort.Strings(rawUpperOps[0])
 	sort.Strings(rawUpperOps[1])
 	bounds["raw_call_upper_half_nonzero_instructions"] = map[string][]string{"compiler": rawUpperOps[0], "interpreter": rawUpperOps[1]}
@@ -533,6 +589,40 @@ func signature(op *rs.Op, m mismatch, t Tuple, class string) string {
 		return fmt.Sprintf("icmp(const0,and)→branch:%s:%s", m.Engine, baseName(op))
 	}
 	return fmt.Sprintf("%s:%s:%s:%s", m.Op, m.Engine, m.Form, class)
+}
+
+// replayRegpos re-executes every parameter position of one instruction for one arity / variant.
+func replayRegpos(rc replayCase, op *rs.Op) {
+	var t Tuple
+	for k := range op.In {
+		lo, _ := strconv.ParseUint(strings.TrimPrefix(rc.Operands[k][0], "0x"), 16, 64)
+		hi, _ := strconv.ParseUint(strings.TrimPrefix(rc.Operands[k][1], "0x"), 16, 64)
+		t[k] = rs.V{Lo: lo, Hi: hi}
+	}
+	p := &rpOp{op: op}
+	for i := 0; i <= rc.Seed; i++ { // index rc.Seed selects the same filler values as in the run
+		p.tuples = append(p.tuples, t)
+		p.exp = append(p.exp, op.Eval(t[0], t[1], t[2]))
+	}
+	fmt.Printf("replay register positions: %s(%s) in %d-parameter functions (mixed=%v), every operand position\n  reference: %s\n", op.Name, fmtIn(op, t), rc.N, rc.Mixed, wantString(op, p.exp[0]))
+	w := newWorker()
+	defer w.close()
+	failed := false
+	w.runRegpos(rpTask{t: op.In[0], n: rc.N, mixed: rc.Mixed, ops: []*rpOp{p}}, &stats{}, func(rm rpMismatch) {
+		if rm.it != rc.Seed {
+			return
+		}
+		fmt.Println("  MISMATCH:", rm.text())
+		if rc.Engine == "" || rc.Engine == engineNames[rm.engine] {
+			failed = true
+		}
+	})
+	if failed {
+		fmt.Println("replay: still fails")
+		os.Exit(1)
+	}
+	fmt.Println("replay: both engines agree with the reference")
+	os.Exit(0)
 }
 
 // replayChain re-executes one producer (all its consumers and the raw call) on one operand tuple.
